@@ -526,6 +526,19 @@ def run_family(ctx, n_cases, aspects, checks, signatures, modes=("sync", "async"
         c = copy.deepcopy(c)
         obs = rerun(c, flavour=c.get("flavour", "future"))
         batch.append((c, obs, c.get("flavour", "future")))
+
+    def flush_batch():
+        # chunked: keeps memory (and the cost of the per-case gc.collect()) bounded in the thorough tier
+        lines, spans = [], []
+        for case, _, _ in batch:
+            ml = model_lines(case)
+            spans.append((len(lines), len(lines) + len(ml)))
+            lines += ml
+        answers = common.lean_driver("Graph", lines) if lines else []
+        for (case, obs, flavour), (a, b) in zip(batch, spans):
+            evaluate(ctx, case, obs, answers[a:b], aspects, checks, signatures)
+        del batch[:]
+
     for i in range(n_cases):
         mode = modes[i % len(modes)]
         flavour = flavours[i % len(flavours)] if mode == "async" else "future"
@@ -539,14 +552,9 @@ def run_family(ctx, n_cases, aspects, checks, signatures, modes=("sync", "async"
         case, obs = run_adaptive(nodes, mode, rng, rng.randint(*n_ops), pre_ops=pre, opts=opts, flavour=flavour)
         case["flavour"] = flavour
         batch.append((case, obs, flavour))
-    lines, spans = [], []
-    for case, _, _ in batch:
-        ml = model_lines(case)
-        spans.append((len(lines), len(lines) + len(ml)))
-        lines += ml
-    answers = common.lean_driver("Graph", lines)
-    for (case, obs, flavour), (a, b) in zip(batch, spans):
-        evaluate(ctx, case, obs, answers[a:b], aspects, checks, signatures)
+        if len(batch) >= 500:
+            flush_batch()
+    flush_batch()
 
 
 def evaluate(ctx, case, obs, answers, aspects, checks, signatures):
